@@ -1,3 +1,5 @@
+import math
+
 import torch
 from torch.nn import functional as F
 
@@ -159,9 +161,12 @@ def quadratic_spline(
             (alpha * (input_right_heights - input_left_heights) + input_left_heights)
         )
 
+    # The spline above maps the unit interval onto itself: account for the rescaling to the box.
     if inverse:
         outputs = outputs * (right - left) + left
+        logabsdet = logabsdet + math.log(right - left) - math.log(top - bottom)
     else:
         outputs = outputs * (top - bottom) + bottom
+        logabsdet = logabsdet + math.log(top - bottom) - math.log(right - left)
 
     return outputs, logabsdet
